@@ -118,6 +118,7 @@ func VerifC08Faults() {
 	r := rStep(fs, t, c08Helpers[h].op, false)
 	core.faultAt = -1
 	verifReach("helper-returned")
+	verifAssert(core.opened == core.closed, "the helper left a handle open (also on its failure paths every handle it opened is closed)")
 	if !core.fired {
 		return
 	}
